@@ -53,6 +53,28 @@ PROPERTIES = {
         "level_note": "Assumed: `{}`/to_string of an unsigned integer is the canonical decimal string, `{:02}` zero-pads to two digits; Formatter is a ghost sink. HumanBytes/BinaryBytes/DecimalBytes: only the body shape is covered (see DESIGN: prefix choice and two-decimal float printing live in number_prefix and core::fmt). HumanFloatCount and HumanDuration: see the units listed in the evidence.",
         "assumptions": ["R7 write! translation, R3 chars().enumerate() as an index loop over the materialised characters"],
     },
+    "C13": {
+        "units": ["c13_bar"],
+        "kani_thorough": [
+            {"harness": "c13_format_bar_geometry", "timeout": 2400, "complete": True,
+             "obligation": "kani/style::ProgressStyle::format_bar",
+             "what": "filled == floor(fraction*cells) <= cells; a partial cell exists iff 0 < fill and filled < cells; empty at 0, full at 1; the partial-cell index is a valid progress character -- ALL f32 fractions in [0,1] x widths <= 65535 x cell width 1..2 x 2..5 progress chars",
+             "trusted": ["Kani/CBMC float model", "RandomState::new stubbed (the custom-key map is not touched by format_bar)", "fixture loop unwound 7 times (2..5 chars)"]},
+            {"harness": "c13_full_iff_complete", "timeout": 7200, "complete": True,
+             "obligation": "kani/style::format_bar-after-fraction",
+             "what": "filled == cells exactly when position >= length, 0 at position 0 -- ALL positions, lengths <= 2^24, widths 1..65535",
+             "trusted": ["Kani/CBMC float model", "Instant::now and RandomState::new stubbed"]},
+            {"harness": "c13_filled_monotone", "timeout": 7200, "complete": True,
+             "obligation": "kani/style::format_bar-monotone",
+             "what": "p1 <= p2 ==> filled(p1) <= filled(p2) -- ALL positions, lengths <= 2^24, widths <= 65535",
+             "trusted": ["Kani/CBMC float model", "Instant::now and RandomState::new stubbed"]},
+        ],
+        "level": "proof",
+        "explanation": "BarDisplay::fmt and RepeatedStringDisplay::fmt extracted and verified by Verus: the bar text is filled cells, then at most one partial cell (one of the configured progress characters), then background cells, in that order; cell-budget and wide_bar width arithmetic as lemmas. format_bar (f32 arithmetic) is decided on the unmodified function by loop-free Kani harnesses over the full stated domains (thorough tier).",
+        "level_text": "Deductive proof (Verus) of the cell order and the integer arithmetic for all inputs; bit-precise proof (Kani/CBMC) of floor(fraction*cells), the partial-cell condition, index validity, full-iff-complete up to 2^24 and monotonicity over all inputs of the stated domains.",
+        "level_note": "Assumed: console::StyledObject printing, core::fmt sink. The quick tier runs the Verus unit only; the three Kani harnesses take 5 to 60 minutes and run in the thorough tier (a timeout there is reported as undecided). That WideElement::expand hands format_bar the remaining width is decided in C11's unit (format_state).",
+        "assumptions": ["cell widths 1..2 and 2..5 progress characters in the Kani fixture", "IEEE-754 semantics as implemented by CBMC"],
+    },
     "C14": {
         "units": ["c14_style"],
         "level": "proof",
